@@ -38,7 +38,7 @@ Definition p_address (c os code nparams info0 info1 excaddr : Z) : Z :=
   g_crash_address (mk_gcpu c) (if os =? 0 then GOsWindows else GOsLinux) code nparams
                   (fun k => if k =? 0 then info0 else if k =? 1 then info1 else 0) excaddr.
 Definition p_op (os code nparams info0 : Z) : Z :=
-  if (os =? 0) && (code =? WIN_EXCEPTION_ACCESS_VIOLATION) && (1 <=? nparams)
+  if (os =? 0) && (code =? WIN_EXCEPTION_ACCESS_VIOLATION) && g_win_av_guard nparams
   then g_memop_of_access info0
   else 0.
 Definition run_pipeline (c os code nparams info0 info1 excaddr : Z) (ctx : option (Z * list Z))
